@@ -84,11 +84,12 @@ class Run:
 
     def state(self):
         t = self.t
-        return (t._packet_id_base, t._injection_base, tuple(t.injections), tuple(t.dropped))
+        return (t._packet_id_base, t._injection_base, repr(list(t.injections)), repr(list(t.dropped)))
 
     def max_evicted(self):
-        cur = set(self.t.injections)
-        ev = [j for j in self.jall if j not in cur]
+        # through the public query only (the tracker's own containers may change representation): an injected ID is still
+        # in the window iff was_injected() says so
+        ev = [j for j in self.jall if _call(self.t.was_injected, j) is not True]
         return max(ev) if ev else NEG_INF
 
     def apply(self, op):
@@ -144,7 +145,6 @@ class Run:
                 self.log.append((o, w))
         # reverse clause, for every forwarded wire ID newer than any aged-out injection
         mev = self.max_evicted()
-        cur = set(t.injections)
         for (o1, w1) in self.log:
             if w1 <= mev or w1 in self.jall:
                 continue
